@@ -1,5 +1,5 @@
 # plan and claim for C03 (cipher modes over SM4); J and both are injected by driver/plan.py
-_ASM = ["avx2", "avx", "sse", "aesni1", "noaes"]
+_ASM = ["avx2", "avx", "sse", "aesni1", "noaes", "noclmul"]
 PLAN = dict(
     level="exploration",
     rule="oneshot: nested enumeration mode (ECB, CBC, CFB, OFB, CTR, XTS, GB-XTS, BC, OFBNLF, HCTR) x direction x every admissible "
@@ -41,8 +41,8 @@ CLAIM = dict(
          "HCTR): every length residue after 0..64 whole blocks (every 16/8/4/1-block loop phase and every ciphertext-stealing tail "
          "size), counters that carry across 32/64/128 bits inside and across keystream refills, in-place / disjoint / longer-dst "
          "calls, and call partitions on one mode object are executed from guard-page buffers on three library code paths (fused "
-         "assembly, generic composition, batched composition) in six dispatch configurations (AVX2, AVX, SSE, single-block AES-NI, "
-         "table-driven Go with cpu.aes=off, purego) and compared byte for byte with independent textbook definitions; the library's "
+         "assembly, generic composition, batched composition) in seven dispatch configurations (AVX2, AVX, SSE, single-block AES-NI, "
+         "AES-NI without PCLMULQDQ, table-driven Go with cpu.aes=off, purego) and compared byte for byte with independent textbook definitions; the library's "
          "decryption is applied to its own ciphertext; faults, canary changes and child death are violations. Held on the cases "
          "executed; not a proof.",
     design_ref="DESIGN.md 6 (C03)",
